@@ -1,6 +1,7 @@
 package batchers
 
 import (
+	"bytes"
 	"compress/gzip"
 	"io"
 	"os"
@@ -63,16 +64,43 @@ func openFileToReader(filename string, gunzip bool) (io.ReadCloser, error) {
 	var file io.ReadCloser = baseFile
 
 	if gunzip {
-		zfile, err := gzip.NewReader(file)
+		probe := &probeReader{r: baseFile, recording: true}
+		zfile, err := gzip.NewReader(probe)
+		probe.recording = false
 		if err != nil {
 			logger.Printf("Gunzip error for file %s: %v; Reading as plain file", filename, err)
-			baseFile.Seek(0, io.SeekStart) // Rewind, since it probably took a few bytes to figure out this wasn't a gzip file
+			// Rewind, since it probably took a few bytes to figure out this wasn't a gzip file
+			if _, serr := baseFile.Seek(0, io.SeekStart); serr != nil {
+				// Not seekable (a named pipe): hand the consumed bytes out again instead
+				file = &replayedFile{io.MultiReader(bytes.NewReader(probe.seen), baseFile), baseFile}
+			}
 		} else {
 			file = zfile
 		}
 	}
 
 	return file, nil
+}
+
+// probeReader remembers what the gzip header probe consumed
+type probeReader struct {
+	r         io.Reader
+	recording bool
+	seen      []byte
+}
+
+func (s *probeReader) Read(p []byte) (int, error) {
+	n, err := s.r.Read(p)
+	if s.recording {
+		s.seen = append(s.seen, p[:n]...)
+	}
+	return n, err
+}
+
+// replayedFile reads the probed bytes, then the rest of the file it closes
+type replayedFile struct {
+	io.Reader
+	io.Closer
 }
 
 // Aggregate one channel into another, with a buffer
